@@ -5,7 +5,7 @@ object identities and the argument objects (tags, diagram config) unchanged; sol
 (c) E3 fault enumeration on batt_life: pfunc raises; dfunc raises at call k for EVERY k of every answer sequence; a battery state that makes the solver raise
 at step k -- afterwards params() shows the original vo / rs and K_full is unchanged."""
 import itertools, copy, os, json, io, contextlib, shutil, hashlib
-from ..common import Run, Res, seed, quiet_call, VERIF
+from ..common import workdir as _wd, cleanup_workdir as _cw, Run, Res, seed, quiet_call, VERIF
 from ..sysmodel import build, letters, PH2
 from ..muxsys import mux_spec
 from .. import e2
@@ -48,8 +48,7 @@ def battery(spec):
 
 def run_analysis(s, spec, name, args):
     """returns a hashable / comparable normalised result."""
-    wd = os.path.join(VERIF, ".work", "C17-%d" % os.getpid())
-    os.makedirs(wd, exist_ok=True)
+    wd = _wd()
     try:
         if name == "solve":
             return table(quiet_call(s.solve)[0], ["Phase", "Component"])
@@ -196,7 +195,7 @@ def replay(doc):
     r = check_case(doc["case"])
     for sig, detail in r.viol[:10]:
         print("  ", sig, detail)
-    shutil.rmtree(os.path.join(VERIF, ".work"), ignore_errors=True)
+    _cw()
     return [s for s, _ in r.viol]
 
 
@@ -205,7 +204,7 @@ def main(tier):
     try:
         run.map(check_case, gen_cases(tier), chunk=4, family="analyses")
     finally:
-        shutil.rmtree(os.path.join(VERIF, ".work"), ignore_errors=True)
+        _cw()
     for c in ("seq2", "pfunc-raises", "dfunc-raises", "dfunc-aborts", "solver-raises", "normal"):
         run.require(c in run.classes, "class %s never observed" % c)
     return run.finish(
